@@ -151,13 +151,14 @@ CLAIMS = {
         technique="static analysis: typestate abstract interpretation with inlining along the MRO"),
     "C19": dict(
         design_ref="DESIGN.md §6 C19",
-        text="Two clauses only: the BatcherIter accumulate-and-yield idiom (every element appended once, full batch "
-             "yielded then replaced by a fresh container, non-empty remainder yielded, lock-step zip) and agreement of the "
-             "numeral tables of int_2_roman/roman_2_int (each numeral evaluates to its value under the reader's table; "
-             "standard descending 13-entry table). Inverse-ness on 1..3999, arg_sort, sub_seq, search_sub_seq, "
-             "compare_pos_in_iterables and Batcher arithmetic are value-level and not decided.",
+        text="Four clauses: the BatcherIter accumulate-and-yield idiom (every element appended once, full batch yielded then "
+             "replaced by a fresh container, non-empty remainder yielded, lock-step zip); agreement of the numeral tables of "
+             "int_2_roman/roman_2_int (each numeral evaluates to its value under the reader's table; standard descending "
+             "13-entry table); arg_sort by delegation to sorted(range(n), key=..., reverse=reverse); the window scans of "
+             "sub_seq/search_sub_seq examine every offset. Inverse-ness on 1..3999 as such, compare_pos_in_iterables and the "
+             "Batcher index arithmetic are value-level and not decided.",
         level_note=STATIC_BASE,
-        technique="static analysis: idiom typestate, literal-table agreement"),
+        technique="static analysis: idiom typestate, literal-table agreement, delegation and scan-shape rules"),
     "C20": dict(
         design_ref="DESIGN.md §6 C20",
         text="Exact decomposition of 'however the context is left': cleanup in __exit__ is unconditional and precedes "
